@@ -229,7 +229,9 @@ def main(argv=None):
                     if fl["size"] < cur["size"]:
                         failures[b] = fl
                     failures[b]["count"] = cnt
-        # ---- stalled cases: confirm alone ------------------------------------------
+        # ---- stalled cases: confirm alone (in parallel, at most 4 distinct cases) ------------
+        confirm = []
+        seen_cases = set()
         for i, case_txt in sorted(stalled.items()):
             if not case_txt:
                 harness_errors.append("shard %d stalled before announcing a case" % i)
@@ -239,18 +241,31 @@ def main(argv=None):
             except ValueError:
                 harness_errors.append("shard %d stalled; announced case unreadable" % i)
                 continue
+            if case_txt in seen_cases or len(confirm) >= 4:
+                inconclusive.append("shard %d stalled; its case was not re-run (others are being confirmed)" % i)
+                continue
+            seen_cases.add(case_txt)
             cf = os.path.join(scratch, "stall%02d.json" % i)
             with open(cf, "w") as f:
                 json.dump(dict(case=case), f)
+            p = subprocess.Popen([sys.executable, "-W", "ignore", "-m", "vf.main", prop, "--replay", cf,
+                                  "--tier", a.tier, "--seed", str(seed)], stdout=subprocess.DEVNULL,
+                                 stderr=subprocess.DEVNULL, start_new_session=True)
+            procs.append(p)
+            confirm.append((i, case, case_txt, p))
+        deadline = time.time() + 2 * stall_s
+        for i, case, case_txt, p in confirm:
             try:
-                subprocess.run([sys.executable, "-W", "ignore", "-m", "vf.main", prop, "--replay", cf,
-                                "--tier", a.tier, "--seed", str(seed)],
-                               timeout=2 * stall_s, capture_output=True)
+                p.wait(timeout=max(1, deadline - time.time()))
                 inconclusive.append("shard %d stalled once on a case that finished when re-run alone" % i)
             except subprocess.TimeoutExpired:
-                failures["hang:stall-confirmed"] = dict(
+                try:
+                    os.killpg(p.pid, signal.SIGKILL)
+                except Exception:
+                    pass
+                failures.setdefault("hang:stall-confirmed", dict(
                     case=case, detail="case ran > %ds in the shard and > %ds alone" % (stall_s, 2 * stall_s),
-                    size=len(case_txt), count=1)
+                    size=len(case_txt), count=0))["count"] += 1
         wall = time.time() - t0
         if harness_errors:
             seen_err = set()
